@@ -3,6 +3,7 @@
 package handshake
 
 import (
+	"crypto/ed25519"
 	cryptopb "github.com/libp2p/go-libp2p/core/crypto/pb"
 	"context"
 	crand "crypto/rand"
@@ -88,6 +89,21 @@ func c06SmallOrderEd25519() [][32]byte {
 		out = append(out, a)
 	}
 	return out
+}
+
+// c06ForgeSmallOrderSig looks for a signature (R of small order, S = 0) that verifies over msg under the small-order
+// key pk: no private key is involved, the attacker only tries the eight candidates for R
+func c06ForgeSmallOrderSig(pk [32]byte, msg []byte) []byte {
+	for _, r := range c06SmallOrderEd25519() {
+		sig := make([]byte, 64)
+		copy(sig, r[:])
+		if ed25519.Verify(ed25519.PublicKey(pk[:]), msg, sig) {
+			return sig
+		}
+	}
+	sig := make([]byte, 64)
+	copy(sig, c06SmallOrderEd25519()[0][:])
+	return sig
 }
 
 func c06Pipe() (*c06Conn, *c06Conn) {
@@ -485,9 +501,9 @@ func c06Catalogue(k *c06Keys, rt *rapid.T) []c06Outcome {
 			if err != nil {
 				return
 			}
-			// R = the point itself (or the neutral element), S = 0: [0]B = R + [h]A holds whenever R + [h]A is neutral
-			sig := make([]byte, 64)
-			copy(sig, c06SmallOrderEd25519()[0][:]) // R = neutral element
+			// S = 0 and R of small order: [0]B = R + [h]A holds whenever R + [h]A is neutral; the attacker knows the
+			// signed message (a.b) and tries the eight candidates for R
+			sig := c06ForgeSmallOrderSig(pt, ab[:])
 			o.passedBox = true
 			if cm.sendBox(c06BoxKey(ab, aB), &c06NonceAuth, &RequesterAuthenticatePayload{RequesterAccountId: pkBytes, RequesterAccountSig: sig}) != nil {
 				return
@@ -521,8 +537,7 @@ func c06Catalogue(k *c06Keys, rt *rapid.T) []c06Outcome {
 			o.passedBox = true
 			ab := c06Shared(a, honestPriv)
 			// A.B is the constant of the zero point: the target's curve25519 form has small order
-			sig := make([]byte, 64)
-			copy(sig, c06SmallOrderEd25519()[0][:])
+			sig := c06ForgeSmallOrderSig(pt, ab[:])
 			_ = cm.sendBox(c06BoxKey(ab, zeroShared), &c06NonceAccept, &ResponderAcceptPayload{ResponderAccountSig: sig})
 			var ack RequesterAcknowledgePayload
 			_ = cm.r.ReadMsg(&ack)
